@@ -17,6 +17,7 @@ from __future__ import annotations
 import ast
 import copy
 import json
+import os
 from pathlib import Path
 
 import bridge
@@ -147,6 +148,39 @@ def _class_facts(path: Path, cls: str):
     return ext_name, type_name, idx, problems
 
 
+_PROBE = r"""
+import importlib, json, sys
+from hugr import tys
+m = importlib.import_module(sys.argv[1]); cls = getattr(m, sys.argv[2])
+probe = tys.Bool
+try:
+    obj = cls(probe, 3)
+except TypeError:
+    obj = cls(probe)
+idx = [i for i, a in enumerate(obj.args) if isinstance(a, tys.TypeTypeArg) and a.ty is probe]
+td = obj.type_def
+print(json.dumps({"ext": td._extension.name, "type": td.name, "idx": idx, "ty": obj.ty is probe}))
+"""
+
+
+def _class_facts_by_running(repo: Path, module: str, cls: str):
+    """The same facts obtained by instantiating the class (used when the syntax of the class is not the one the
+    AST reader knows: a refactoring).  The override `type_bound = element's bound` is then not read off the
+    source at all: the `c07.std` stream compares the model's bound with the class's on every element type."""
+    import subprocess
+    import sys
+
+    try:
+        p = subprocess.run([sys.executable, "-c", _PROBE, module, cls], capture_output=True, text=True, timeout=120,
+                           env={**os.environ, "PYTHONPATH": str(repo / "hugr-py/src")})
+        r = json.loads(p.stdout.strip().splitlines()[-1])
+    except Exception:  # noqa: BLE001
+        return None
+    if len(r["idx"]) != 1 or not r["ty"]:
+        return None
+    return r["ext"], r["type"], r["idx"][0]
+
+
 def _std_files(repo: Path, rel: str):
     root = repo / rel
     return sorted(p for p in root.rglob("*.json"))
@@ -174,6 +208,13 @@ def translate(repo, gen_dir):
     coll = repo / "hugr-py/src/hugr/std/collections"
     for lean_name, file, cls in [("array", "array.py", "Array"), ("list", "list.py", "List"), ("staticArray", "static_array.py", "StaticArray")]:
         ext_name, type_name, idx, probs = _class_facts(coll / file, cls)
+        if probs:
+            got = _class_facts_by_running(repo, "hugr.std.collections." + file[:-3], cls)
+            if got is not None:
+                ext_name, type_name, idx = got
+                probs = [f"note: {file}: {cls} is not written the way the AST reader expects ({'; '.join(probs)}); "
+                         "extension, type name and element index obtained by instantiating the class, the bound "
+                         "override is left to the correspondence stream c07.std"]
         problems += probs
         td = defs.get(ext_name, {}).get(type_name)
         if td is None:
